@@ -344,8 +344,14 @@ class World:
             data = model.prim2cons([q, u0 + 0 * q])
         else:
             raise HarnessError(kind)
+        t0 = unhex(fs.get("t0", "0x0p+0"))
+        if fs.get("t_int") and float(t0).is_integer():
+            t0 = int(t0)
+        if fs.get("scalar_init") and amp == 0.0:
+            # constant state handed over as scalars: fdata expands them itself
+            return ffield.fdata(model, self.mesh, [float(np.asarray(d).flat[0]) for d in data], t=t0, it=fs.get("it", -1))
         return ffield.fdata(model, self.mesh, [np.array(d, dtype=float) for d in data],
-                            t=unhex(fs.get("t0", "0x0p+0")), it=fs.get("it", -1))
+                            t=t0, it=fs.get("it", -1))
 
 
 def _make_field2d(self, fs, disc):
